@@ -6,6 +6,8 @@ package main
 // library contracts with a small difference-constraint solver.
 
 import (
+	"regexp"
+	"go/ast"
 	"encoding/json"
 	"fmt"
 	"go/token"
@@ -242,6 +244,21 @@ func (tb *TB) lenSym(v ssa.Value) (string, int64, bool) {
 	if ms, ok := stripConv(v).(*ssa.MakeSlice); ok {
 		sy, off := linear(tb.Term(ms.Len))
 		return sy, off, false
+	}
+	// arr[a:] of a fixed-size array (a field, a local)
+	if sl, ok := stripConv(v).(*ssa.Slice); ok && sl.High == nil {
+		if pt, isP := sl.X.Type().Underlying().(*types.Pointer); isP {
+			if at, isA := pt.Elem().Underlying().(*types.Array); isA {
+				lo := int64(0)
+				okLo := sl.Low == nil
+				if sl.Low != nil {
+					lo, okLo = constInt(sl.Low)
+				}
+				if okLo && lo >= 0 && lo <= at.Len() {
+					return "0", at.Len() - lo, true
+				}
+			}
+		}
 	}
 	// x[a:b] with constant a and b (make([]T, 0, n) is new [n]T [:0])
 	if sl, ok := stripConv(v).(*ssa.Slice); ok && sl.High != nil {
@@ -901,6 +918,8 @@ func (p *Program) BoundsOf(fn *ssa.Function) []*BoundOb {
 				// is known about the values (library contracts, lengths of fixed buffers)
 				if sy := tb.system(in); sy.implied("0", "0", -1) || fmInfeasible(sy.linCons()) {
 					ob.OK, ob.How = true, "unreachable: the guards in force contradict the known bounds of the values"
+				} else if how := tb.p.assertionHeldByCallers(fn, x); how != "" {
+					ob.OK, ob.How = true, how
 				} else if os.Getenv("AGECHECK_DEBUG_BOUNDS") != "" {
 					fmt.Fprintf(os.Stderr, "bounds: %s\n", ob.Desc)
 					for _, c := range sy.cons {
@@ -1148,4 +1167,354 @@ func arrayOriginLen(v ssa.Value, depth int) (int64, bool) {
 		return arrayOriginLen(x.X, depth+1)
 	}
 	return 0, false
+}
+
+// assertionHeldByCallers: an explicit panic in an unexported function stands under guards that
+// speak only of the state the function was entered in (receiver fields not yet reloaded after a
+// store, parameters, constants, lengths). It cannot fire if every call site of the function — all
+// of them static calls inside the module — stands under facts that contradict one of these
+// guards once the callee's receiver and parameters are replaced by what the caller passes.
+// Returns a description of the proof, or "".
+func (p *Program) assertionHeldByCallers(fn *ssa.Function, pn *ssa.Panic) string {
+	if fn.Parent() != nil || ast.IsExported(fn.Name()) || fn.Signature == nil {
+		return ""
+	}
+	tb := p.TB(fn)
+	var guards []Atom
+	for _, a := range tb.FactsAt(pn.Block()) {
+		if a.Kind == "cmp" && entryStateTerm(a.X, 0) && entryStateTerm(a.Y, 0) {
+			guards = append(guards, a)
+		}
+	}
+	dbg := os.Getenv("AGECHECK_DEBUG_ASSERT") != ""
+	if dbg {
+		fmt.Fprintf(os.Stderr, "assert %s %s: guards %s (all facts: %s) callers %d\n", fn, panicText(pn), short(factStrings(guards)), short(factStrings(tb.FactsAt(pn.Block()))), len(p.Callers(fn)))
+	}
+	if len(guards) == 0 {
+		return ""
+	}
+	callers := p.Callers(fn)
+	if len(callers) == 0 {
+		return ""
+	}
+	n := 0
+	for _, e := range callers {
+		site, ok := e.Site.(ssa.CallInstruction)
+		if !ok || staticCallee(site.Common()) != fn || e.Caller == nil || e.Caller.Blocks == nil || !p.inModule(e.Caller) {
+			return ""
+		}
+		if _, isDefer := site.(*ssa.Defer); isDefer {
+			return ""
+		}
+		if _, isGo := site.(*ssa.Go); isGo {
+			return ""
+		}
+		ctb := p.TB(e.Caller)
+		args := site.Common().Args
+		if len(args) != len(fn.Params) {
+			return ""
+		}
+		sub := map[string]*Term{}
+		for i, prm := range fn.Params {
+			sub[tb.Term(prm).String()] = ctb.Term(args[i])
+		}
+		sys := ctb.system(site.(ssa.Instruction))
+		refuted := false
+		for _, g := range guards {
+			g2 := Atom{Kind: "cmp", Op: g.Op, X: substEntryTerm(g.X, sub), Y: substEntryTerm(g.Y, sub)}
+			// a guard that compares two constants after substitution decides itself
+			if g2.X != nil && g2.Y != nil && g2.X.Op == "Const" && g2.Y.Op == "Const" {
+				same := g2.X.S == g2.Y.S
+				if (g2.Op == "!=" && same) || (g2.Op == "==" && !same) {
+					refuted = true
+					break
+				}
+			}
+			s2 := &dsys{cons: append([]dcons(nil), sys.cons...), neq: append([]dcons(nil), sys.neq...), eqs: sys.eqs, ineqs: sys.ineqs, copies: sys.copies}
+			s2.addAtom(g2)
+			s2.tighten()
+			if dbg {
+				fmt.Fprintf(os.Stderr, "   guard %s: linear X=%v Y=%v neq=%v\n", g2.String(), func() string { a, _ := linear(g2.X); return a }(), func() string { a, _ := linear(g2.Y); return a }(), s2.neq)
+				for _, c := range s2.cons {
+					if strings.Contains(c.x+c.y, "err") {
+						fmt.Fprintf(os.Stderr, "      %s - %s <= %d\n", c.x, c.y, c.c)
+					}
+				}
+			}
+			if s2.inconsistent() || fmInfeasible(s2.linCons()) {
+				refuted = true
+				break
+			}
+			// the same on the printed form of the facts (receiver fields are numbered per load in
+			// the caller): a fact of the caller about the same terms that excludes the guard,
+			// every field it reads unchanged between that load and the call
+			for _, cf := range ctb.FactsAt(site.Block()) {
+				if dbg {
+					fmt.Fprintf(os.Stderr, "   cmp guard [%s|%s|%s] fact [%s|%s|%s] kind=%s\n", g2.X.String(), g2.Op, g2.Y.String(), cf.X, cf.Op, cf.Y, cf.Kind)
+				}
+				if dbg && atomsContradict(g2, cf) {
+					fmt.Fprintf(os.Stderr, "   contradicting fact %s stable=%v\n", cf.String(), p.factStableUntil(cf, site.(ssa.Instruction)))
+				}
+				if atomsContradict(g2, cf) && p.factStableUntil(cf, site.(ssa.Instruction)) {
+					refuted = true
+					break
+				}
+			}
+			if refuted {
+				break
+			}
+		}
+		if dbg {
+			fmt.Fprintf(os.Stderr, "   site in %s refuted=%v facts: %s\n", e.Caller, refuted, short(factStrings(ctb.FactsAt(site.Block()))))
+		}
+		if !refuted {
+			return ""
+		}
+		n++
+	}
+	return "unreachable: each of the " + itoa(n) + " call site(s) of " + short(fn.String()) + " stands under facts that contradict the state this assertion tests"
+}
+
+// entryStateTerm: the term is built from the receiver, parameters, constants, fields of these
+// that have not been stored to since entry, and lengths/arithmetic of such.
+func entryStateTerm(t *Term, d int) bool {
+	if t == nil || d > 6 {
+		return false
+	}
+	switch t.Op {
+	case "Const", "Nil", "Recv", "Param":
+		return true
+	case "Field":
+		return !strings.Contains(t.S, "@") && len(t.Args) == 1 && entryStateTerm(t.Args[0], d+1)
+	case "Bin":
+		return len(t.Args) == 2 && entryStateTerm(t.Args[0], d+1) && entryStateTerm(t.Args[1], d+1)
+	case "Call", "len", "cap":
+		return (t.S == "len" || t.S == "cap" || t.Op == "len" || t.Op == "cap") && len(t.Args) == 1 && entryStateTerm(t.Args[0], d+1)
+	}
+	return false
+}
+
+// substTerm replaces receiver and parameter leaves by the given terms.
+func substEntryTerm(t *Term, sub map[string]*Term) *Term {
+	if t == nil {
+		return nil
+	}
+	if t.Op == "Recv" || t.Op == "Param" {
+		if r, ok := sub[t.String()]; ok {
+			return r
+		}
+		return t
+	}
+	if len(t.Args) == 0 {
+		return t
+	}
+	n := *t
+	n.Args = make([]*Term, len(t.Args))
+	for i, a := range t.Args {
+		n.Args[i] = substEntryTerm(a, sub)
+	}
+	return &n
+}
+
+// inconsistent: some pair of symbols is constrained both to x - y <= c and to x - y >= c+1
+// (a negative cycle in the constraint graph).
+func (s *dsys) inconsistent() bool {
+	for _, k := range s.cons {
+		if k.x != k.y && s.implied(k.y, k.x, -k.c-1) {
+			return true
+		}
+		if k.x == k.y && k.c < 0 {
+			return true
+		}
+	}
+	return false
+}
+
+var versionRe = regexp.MustCompile(`@[0-9]+`)
+
+// atomsContradict: two comparisons over the same pair of (printed) terms that cannot both hold.
+func atomsContradict(g, f Atom) bool {
+	if g.Kind != "cmp" || f.Kind != "cmp" || g.X == nil || g.Y == nil || f.X == nil || f.Y == nil {
+		return false
+	}
+	gx, gy, gop := versionRe.ReplaceAllString(g.X.String(), ""), versionRe.ReplaceAllString(g.Y.String(), ""), g.Op
+	fx, fy, fop := versionRe.ReplaceAllString(f.X.String(), ""), versionRe.ReplaceAllString(f.Y.String(), ""), f.Op
+	if gx == fy && gy == fx && gx != gy {
+		fx, fy, fop = fy, fx, swapOp[fop]
+	}
+	if gx != fx {
+		return false
+	}
+	gk, gIsK := intConst(g.Y)
+	fk, fIsK := intConst(f.Y)
+	if gIsK && fIsK {
+		// intervals of x
+		rng := func(op string, k int64) (lo, hi int64, ne bool, ok bool) {
+			const inf = int64(1) << 62
+			switch op {
+			case "==":
+				return k, k, false, true
+			case "<":
+				return -inf, k - 1, false, true
+			case "<=":
+				return -inf, k, false, true
+			case ">":
+				return k + 1, inf, false, true
+			case ">=":
+				return k, inf, false, true
+			case "!=":
+				return k, k, true, true
+			}
+			return 0, 0, false, false
+		}
+		glo, ghi, gne, ok1 := rng(gop, gk)
+		flo, fhi, fne, ok2 := rng(fop, fk)
+		if !ok1 || !ok2 {
+			return false
+		}
+		switch {
+		case gne && fne:
+			return false
+		case gne:
+			return flo == fhi && flo == glo
+		case fne:
+			return glo == ghi && glo == flo
+		}
+		return ghi < flo || fhi < glo
+	}
+	if gy != fy {
+		return false
+	}
+	bad := map[string]map[string]bool{
+		"==": {"!=": true, "<": true, ">": true},
+		"!=": {"==": true},
+		"<":  {"==": true, ">=": true, ">": true},
+		"<=": {">": true},
+		">":  {"==": true, "<=": true, "<": true},
+		">=": {"<": true},
+	}
+	return bad[gop][fop]
+}
+
+// factStableUntil: every receiver/parameter field the fact reads was loaded at a point from
+// which the call site is reached without a store to that field (directly or through a callee of
+// the module that writes it).
+func (p *Program) factStableUntil(f Atom, site ssa.Instruction) bool {
+	ok := true
+	check := func(t *Term) {
+		t.Walk(func(x *Term) {
+			if x.Op != "Field" || x.V == nil {
+				return
+			}
+			ld, isLd := x.V.(*ssa.UnOp)
+			if !isLd {
+				// the value of the field as a whole (FieldAddr of an array): treat like a load here
+				if in, isIn := x.V.(ssa.Instruction); isIn && !p.fieldUnwrittenBetween(in, site, x.S) {
+					ok = false
+				}
+				return
+			}
+			if !p.fieldUnwrittenBetween(ld, site, x.S) {
+				ok = false
+			}
+		})
+	}
+	check(f.X)
+	check(f.Y)
+	return ok
+}
+
+// fieldUnwrittenBetween: no instruction that lies on a way from `from` to `to` stores to a field
+// called name or calls a module function whose effects write such a field.
+func (p *Program) fieldUnwrittenBetween(from, to ssa.Instruction, name string) bool {
+	name = strings.SplitN(name, "@", 2)[0]
+	fb, tb := from.Block(), to.Block()
+	if fb == nil || tb == nil || fb.Parent() != tb.Parent() || !(fb == tb || fb.Dominates(tb)) {
+		return false
+	}
+	// blocks between: reachable from fb and reaching tb
+	fwd := map[*ssa.BasicBlock]bool{}
+	var f1 func(b *ssa.BasicBlock)
+	f1 = func(b *ssa.BasicBlock) {
+		if fwd[b] {
+			return
+		}
+		fwd[b] = true
+		if b == tb {
+			return
+		}
+		for _, s := range b.Succs {
+			f1(s)
+		}
+	}
+	f1(fb)
+	bwd := map[*ssa.BasicBlock]bool{}
+	var f2 func(b *ssa.BasicBlock)
+	f2 = func(b *ssa.BasicBlock) {
+		if bwd[b] {
+			return
+		}
+		bwd[b] = true
+		if b == fb {
+			return
+		}
+		for _, s := range b.Preds {
+			f2(s)
+		}
+	}
+	f2(tb)
+	writes := func(in ssa.Instruction) bool {
+		switch x := in.(type) {
+		case *ssa.Store:
+			if fa, ok := x.Addr.(*ssa.FieldAddr); ok {
+				if st, ok := fa.X.Type().Underlying().(*types.Pointer); ok {
+					if sty, ok := st.Elem().Underlying().(*types.Struct); ok && fa.Field < sty.NumFields() && sty.Field(fa.Field).Name() == name {
+						return true
+					}
+				}
+			}
+		case ssa.CallInstruction:
+			if in == to {
+				return false
+			}
+			callee := staticCallee(x.Common())
+			if callee == nil {
+				return !isBuiltinCall(x.Common()) && x.Common().IsInvoke() == false && x.Common().StaticCallee() == nil // a dynamic call may do anything
+			}
+			if p.inModule(callee) {
+				for f := range p.EffectsOf(callee).AllFields {
+					if strings.HasSuffix(f, "."+name) {
+						return true
+					}
+				}
+			}
+		}
+		return false
+	}
+	for b := range fwd {
+		if !bwd[b] {
+			continue
+		}
+		for _, in := range b.Instrs {
+			if b == fb && b == tb {
+				// same block: only what lies between
+				if instrIndex(in) <= instrIndex(from) || instrIndex(in) >= instrIndex(to) {
+					continue
+				}
+			} else if b == fb && instrIndex(in) <= instrIndex(from) {
+				continue
+			} else if b == tb && instrIndex(in) >= instrIndex(to) {
+				continue
+			}
+			if writes(in) {
+				return false
+			}
+		}
+	}
+	return true
+}
+
+func isBuiltinCall(c *ssa.CallCommon) bool {
+	_, ok := c.Value.(*ssa.Builtin)
+	return ok
 }
